@@ -13,8 +13,29 @@ TYPES = {
 }
 
 
-def fn(ty, impl, name, args='', upd=None, ret=None, rty=None, ring=True, raw=None, **kw):
-    return dict(ty=ty, impl=impl, name=name, args=args, upd=upd, ret=ret, rty=rty, ring=ring, raw=raw, kw=kw)
+def fn(ty, impl, name, args='', upd=None, ret=None, rty=None, ring=True, raw=None, run=None, place=None,
+       fresh_actuals=None, symx_impl=None, **kw):
+    return dict(ty=ty, impl=impl, name=name, args=args, upd=upd, ret=ret, rty=rty, ring=ring, raw=raw, run=run,
+                place=place, fresh_actuals=fresh_actuals, symx_impl=symx_impl, kw=kw)
+
+
+def inverse_fn(T, p, V, sub, some_anchor):
+    """inverse(): Some(y) => x*y == 1 (and x != 0); None => x == 0.  The code inverts the relative norm;
+    both paths need `code norm == spec norm` (ring lemma) and A5 (norm vanishes only at zero)."""
+    raw = (f"    ensures match ret {{ Some(y) => {p}mul(self.v(), y.v()) == {p}one() && self.v() != {p}zero(), "
+           f"None => self.v() == {p}zero() }}")
+    run = dict(
+        tag='if r.is_some() { "some" } else { "none" }',
+        code=f'{{ let mut c = last_cond_lhs(); if let Some(y) = &r {{ c.extend(flat_vec(&{p}mul(s0.v(), y.v()))); }} syms_json(&c) }}',
+        spec=f'{{ let mut c = flat_vec(&{p}norm(s0.v())); if r.is_some() {{ c.extend(flat_vec(&{p}one())); }} syms_json(&c) }}',
+    )
+    symx_impl = (f"  pub fn inverse(&self) -> Option<{T}> {{ if self.is_zero() {{ None }} else {{ let y = {T}::fresh(&fresh_name(\"inv\")); "
+                 f"let mut a = vec![]; let mut b = vec![]; {p}mul(self.v(), y.v()).flat(&mut a); {p}one().flat(&mut b); "
+                 f"for (l, r) in a.into_iter().zip(b.into_iter()) {{ add_hyp(l, r); }} Some(y) }} }}")
+    return fn(T, f'impl Field for {T}', 'inverse', args='&self', raw=raw, run=run, symx_impl=symx_impl,
+              place={'some': (some_anchor, 'before'), 'none': (r'\bmatch\b', 'before')},
+              fresh_actuals={'inv': 't'},
+              ghost=[(r'\bmatch\b', f"proof {{ lemma_{p}in(self); ax_{p}norm_zero(self.v()); }}", 'before')])
 
 
 def field_fns(T, p, extra_unary=()):
@@ -38,16 +59,19 @@ FNS = (
     field_fns('Fq2', 'f2') + [
         fn('Fq2', 'impl Fq2', 'mul_by_nonresidue', args='&mut self', upd='f2mulnr(SELF)'),
         fn('Fq2', 'impl Fq2', 'norm', args='&self', ret='f2norm(SELF)', rty='Fq'),
+        inverse_fn('Fq2', 'f2', 'F2', 'Fq', r'tmp\s*\}\s*\)\s*,\s*None'),
     ] +
     field_fns('Fq6', 'f6') + [
         fn('Fq6', 'impl Fq6', 'mul_by_nonresidue', args='&mut self', upd='f6mulnr(SELF)'),
         fn('Fq6', 'impl Fq6', 'mul_by_1', args='&mut self, c1: &Fq2', upd='f6mul_by_1(SELF, c1.v())'),
         fn('Fq6', 'impl Fq6', 'mul_by_01', args='&mut self, c0: &Fq2, c1: &Fq2', upd='f6mul_by_01(SELF, c0.v(), c1.v())'),
+        inverse_fn('Fq6', 'f6', 'F6', 'Fq2', r'Some\(tmp\)'),
     ] +
     field_fns('Fq12', 'f12') + [
         fn('Fq12', 'impl Fq12', 'conjugate', args='&mut self', upd='f12conj(SELF)', ring=False),
         fn('Fq12', 'impl Fq12', 'mul_by_014', args='&mut self, c0: &Fq2, c1: &Fq2, c4: &Fq2',
            upd='f12mul_by_014(SELF, c0.v(), c1.v(), c4.v())'),
+        inverse_fn('Fq12', 'f12', 'F12', 'Fq6', r'tmp\s*\}\s*\)\s*,\s*None'),
     ]
 )
 
@@ -63,6 +87,12 @@ def build(src, workdir):
         u.add(t)
     u.add_spec('fq_stub.vrs', symx=False)
     u.add_spec('tower.vrs')
+    u.add_spec('tower_axioms.vrs', symx=False)
+    u.add("""
+pub proof fn lemma_f2in(x: &Fq2) ensures f2in(x.v()) { ax_fq_range(x.c0); ax_fq_range(x.c1); }
+pub proof fn lemma_f6in(x: &Fq6) ensures f6in(x.v()) { lemma_f2in(&x.c0); lemma_f2in(&x.c1); lemma_f2in(&x.c2); }
+pub proof fn lemma_f12in(x: &Fq12) ensures f12in(x.v()) { lemma_f6in(&x.c0); lemma_f6in(&x.c1); }
+""")
     u.lemma_prelude = spec_text('base.vrs') + ringjob.ARITH_LEMMAS
     rj = ringjob.RingJobs(u, TYPES, workdir)
     for T in ('Fq2', 'Fq6', 'Fq12'):
